@@ -199,6 +199,8 @@ def random_history(rng: random.Random, idx: int, disk_root: Path, length: int) -
     cache_flag = {f["name"]: f["cache"] for f in tdesc["funcs"]}
     script: list[dict] = []
     prev_call: dict | None = None
+    last_call: dict | None = None
+    after_mut = False
     nmut = 0
     # the generator consults the live uncached twin (arg_combinations, parameters, defaults, bound), it does not
     # re-derive them; the history is executed step by step so that later choices see the mutated pipeline
@@ -244,6 +246,10 @@ def random_history(rng: random.Random, idx: int, disk_root: Path, length: int) -
                 names[fname] = new
                 op = {"op": "mutate", "kind": kind, **blank, "f": fname, "func": new}
             prev_call = None
+            after_mut = True
+        elif after_mut and last_call is not None and rng.random() < 0.6:
+            op = dict(last_call)                                        # the call before the mutation, again
+            after_mut = False
         elif prev_call is not None and r < 0.5:
             op = dict(prev_call)                                        # exact repeat
         else:
@@ -263,6 +269,7 @@ def random_history(rng: random.Random, idx: int, disk_root: Path, length: int) -
             kw = [[x, k_value(x, 1 if rng.random() < 0.7 else 2)] for x in c]
             op = {"op": "call", "out": o, "kw": kw, "mode": rng.choice(["call", "run", "func", "full"])}
             prev_call = op
+            last_call = op
         part = run_history(tdesc, ctype, ckw, [op], twins=(pc, pu))
         script.append(op)
         trace["ev"] += part["ev"]
